@@ -35,8 +35,9 @@ class Prop:
             "non-trivial = at least one target change on the current delegate was checked for "
             "notification, and one on a non-current candidate or after a broken link for "
             "silence; distinct = distinct abstract traces")
-    ASSUMPTIONS = ["the delegate link always holds an object (reading through None is an error, "
-                   "not a mirror)",
+    ASSUMPTIONS = ["the delegate link holds an object whenever a deferring attribute is read "
+                   "(reading through None is an error, not a mirror); it may pass through None "
+                   "inside a swap",
                    "swapping the delegate itself is not required to notify (the statement speaks "
                    "of changes of the target attribute)"]
 
